@@ -313,7 +313,13 @@ class Checker:
             a = acts_of(st) if isinstance(st, (ast.Assign, ast.Expr, ast.Return)) else []
             kinds = {x[0] for x in a}
             if kinds and kinds <= {"acq", "rel", "bindw", "disarm", "rebind_loop"}:
-                return False  # stack primitives are trusted not to raise
+                # stack primitives are trusted not to raise - unless the acquiring call
+                # evaluates an argument (user expression) first: then it may raise *before*
+                # anything was acquired
+                for x in a:
+                    if x[0] == "acq" and (x[3].args or x[3].keywords):
+                        return True
+                return False
             if isinstance(st, ast.Return) and isinstance(st.value, ast.Constant):
                 return False
             return True
